@@ -2,6 +2,7 @@ import SC.Properties.C10
 import SC.Proofs.SrcIndexByte
 import SC.Proofs.SrcIndexByteB
 import SC.Proofs.SrcIndexRune2
+import SC.Proofs.SrcIndexRune2B
 /-!
 # C10 — source-level theorems
 
@@ -42,4 +43,13 @@ theorem source_indexRune2 (s : Bytes) (root off : Nat) (lower upper : Nat) (hvl 
     GoSsa.Ret Gen.Src.str false Gen.Src.str_indexRune2 [.str s root off, .int lower, .int upper] h
       [.int (A.indexRune2 (GoSsa.cfg false) s lower upper).1, .int (A.indexRune2 (GoSsa.cfg false) s lower upper).2] h :=
   GoSsa.Str.indexRune2 s root off lower upper hvl hvu h hls hCore
+/-- the same for `bytcase.indexRune2` (`Gen.Src.byt`; same go/ssa shape, proof by renaming) -/
+theorem source_indexRune2_bytcase (s : Bytes) (root off : Nat) (lower upper : Nat) (hvl : validRune lower) (hvu : validRune upper) (h : GoSsa.Heap)
+    (hls : s.length < 4611686018427387904)
+    (hCore : ∀ (s' : Bytes) (r : Int), ∃ N, ∀ fuel, N ≤ fuel →
+      GoSsa.run Gen.Src.byt true fuel (GoSsa.Frame.entry Gen.Src.byt_indexRuneCase [.str s' root off, .int r]) h =
+        .ok [.int (A.indexRuneCase (GoSsa.cfg true) s' r)] h) :
+    GoSsa.Ret Gen.Src.byt true Gen.Src.byt_indexRune2 [.str s root off, .int lower, .int upper] h
+      [.int (A.indexRune2 (GoSsa.cfg true) s lower upper).1, .int (A.indexRune2 (GoSsa.cfg true) s lower upper).2] h :=
+  GoSsa.Byt.indexRune2 s root off lower upper hvl hvu h hls hCore
 end C10
